@@ -379,7 +379,7 @@ func r114(c *Ctx, r *R) {
 		}
 		return false
 	})
-	r.Check(okHdr && okAuth, "gate:serve-guarded", serve.Pos(), "the wrapped handler runs only with a parsed Authorization header and the authorized flag set", fmt.Sprintf("h.ServeHTTP is reachable without (credentials present: %v, authorized: %v)", okHdr, okAuth))
+	hdrOnEveryTrue := true // every `true` of the flag is set under BasicAuth's ok
 	if authPhi != nil {
 		// every `true` flowing into the flag is set under u == username && p == password
 		okSet := true
@@ -428,14 +428,30 @@ func r114(c *Ctx, r *R) {
 					if !userOK || !passOK {
 						okSet = false
 					}
+					hdr := false
+					for _, gd := range guardsOf(from) {
+						if ex, ok := gd.Cond.(*ssa.Extract); ok && ex.Tuple == ssa.Value(ba) && ex.Index == 2 && gd.Branch {
+							hdr = true
+						}
+					}
+					if !hdr {
+						hdrOnEveryTrue = false
+					}
 				}
 			default:
 				okSet = false
 			}
 		}
 		walk(authPhi, nil)
+		if nTrue == 0 {
+			hdrOnEveryTrue = false
+		}
+		// credentials present: tested right above the handler, or implied
+		// by the flag (it only becomes true where BasicAuth reported ok)
+		okHdr = okHdr || hdrOnEveryTrue
 		r.Check(okSet && nTrue >= 1, "gate:authorized-means-match", authPhi.Pos(), "authorized becomes true only for a configured user with its own password", "the authorized flag can be set without both user and password matching a configured pair")
 	}
+	r.Check(okHdr && okAuth, "gate:serve-guarded", serve.Pos(), "the wrapped handler runs only with a parsed Authorization header and the authorized flag set", fmt.Sprintf("h.ServeHTTP is reachable without (credentials present: %v, authorized: %v)", okHdr, okAuth))
 	// typestate of the closure: nothing after a 401
 	h := newHTTPAnalysis(c, "api/rest")
 	var lit *ast.FuncLit
